@@ -28,6 +28,16 @@ theorem getElem?_pad_ge {α} {w : Nat} {l : List α} {c : Nat} (h : l.length ≤
 theorem mem_pad_some {α} {w : Nat} {l : List α} {a : α} : some a ∈ pad w l ↔ a ∈ l := by
   simp [pad]
 
+theorem mem_map_ofNat {l : List Nat} {f : Nat} : (f : Int) ∈ l.map Int.ofNat ↔ f ∈ l := by
+  simp only [List.mem_map]
+  constructor
+  · rintro ⟨a, ha, h⟩
+    have : a = f := by
+      have h' : (a : Int) = (f : Int) := h
+      omega
+    exact this ▸ ha
+  · intro h; exact ⟨f, h, rfl⟩
+
 theorem optAll_eq_some {α} : ∀ (l : List (Option α)) (r : List α), optAll l = some r ↔ l = r.map some
   | [], r => by cases r <;> simp [optAll]
   | none :: xs, r => by cases r <;> simp [optAll]
